@@ -14,7 +14,7 @@
 //	probe i         function i (still running) looks at ctx.Err()
 //	cancel          cancel the caller's context
 //	settle          wait until nothing has been logged for a short while (not logged)
-//	quiesce         wait for the grace period and log pending call / functions waiting for ctx
+//	quiesce         (opens the gate,) waits for the grace period and logs pending call / functions waiting for ctx
 //	fquiesce        the same without the grace period when no observable event can follow any more
 //	                (the call has returned and every function has returned)
 //
@@ -252,6 +252,11 @@ func exec(script []string, opt comp.Options) comp.Result {
 		})
 	}
 	fullQuiesce := func() {
+		// a caller held at the gate is not quiescent: let it go first
+		if gate != nil && !gateOpen {
+			gateOpen = true
+			gate.Open()
+		}
 		comp.WaitQuiet(log, opt.Grace, 10*opt.Grace)
 		quiesceLine()
 	}
@@ -395,6 +400,10 @@ func exec(script []string, opt comp.Options) comp.Result {
 		case "quiesce":
 			fullQuiesce()
 		case "fquiesce":
+			if gate != nil && !gateOpen {
+				gateOpen = true
+				gate.Open()
+			}
 			final := called
 			if final {
 				select {
@@ -625,9 +634,5 @@ func init() {
 	comp.Register(&comp.Component{
 		Name: "ccall-enum", Model: "ccall", Gen: gen, Exec: exec,
 		Corpus: enumCorpus(4),
-	})
-	comp.Register(&comp.Component{
-		Name: "ccall-enum3", Model: "ccall", Gen: gen, Exec: exec,
-		Corpus: enumCorpus(3),
 	})
 }
